@@ -89,6 +89,8 @@ type RevScenario struct {
 	CancelXSel       int             // CancelOnXchg: selects one of the planned exchanges
 	CancelXPreferCRL bool            // ... preferring base-CRL downloads (the base/delta boundary)
 	HealCert         int             // C06.R5 twin: certificate whose sources are made honest in the second run
+	CacheLatency     time.Duration   // fake duration of every cache operation
+	PanicInSet       bool            // PanicAt == "cache": Set panics instead of Get
 	Sequential       bool            // soak: the worlds are successive validations of the same chain
 	Gaps             []time.Duration // soak: fake time that passes before each validation
 	Restarts         []bool          // soak: a new fetcher and validator (same cache) is built before the validation
@@ -327,6 +329,8 @@ func GenRevScenario(t *Tape, p *RevProfile) *RevScenario {
 	}
 	sc.Fetcher = t.Weighted(p.FetcherW...)
 	sc.Discard = t.Bool(50)
+	sc.CacheLatency = []time.Duration{0, 3 * time.Millisecond, 40 * time.Millisecond}[t.Weighted(50, 30, 20)]
+	sc.PanicInSet = t.Bool(50)
 	sc.OCSPTimeout = []time.Duration{2 * time.Second, 0, 500 * time.Millisecond, 5 * time.Second}[t.Weighted(50, 15, 15, 20)]
 	sc.CRLTimeout = []time.Duration{5 * time.Second, 0, 500 * time.Millisecond, 2 * time.Second}[t.Weighted(50, 15, 15, 20)]
 	nWorlds := 1
